@@ -446,7 +446,38 @@ def _innermost_loop(node, stop):
     return None
 
 
+def r207(ctx, R):
+    """The search does not know the limit: RequestWideSearchContext._limit
+    (the attribute the request's limit is stored in) is read by
+    limit_results only.  A merge that stops early truncates before the
+    nested-provider exclusion and the de-duplication have run."""
+    prog = ctx.prog
+    init = prog.func(RC + ':RequestWideSearchContext.__init__')
+    attr = None
+    for n in own_nodes(init.node):
+        if isinstance(n, ast.Assign) and isinstance(
+                n.targets[0], ast.Attribute) and src(n.value).endswith(
+                    '.limit'):
+            attr = n.targets[0].attr
+    readers = []
+    for f in prog.funcs:
+        if f.module.name not in (RC, 'placement.objects.'
+                                 'allocation_candidate'):
+            continue
+        for x in own_nodes(f.node):
+            if isinstance(x, ast.Attribute) and x.attr == attr and \
+                    isinstance(x.ctx, ast.Load):
+                readers.append(f.qbase)
+    ok = attr is not None and set(readers) == {LIMIT}
+    R.ob('R20.7', 'limit-read-only-by-limit_results', ok,
+         'the stored limit (%s) is read by limit_results only: the search '
+         'and the merge produce the full set' % attr, sorted(set(readers)),
+         func=init)
+    R.count('R20.7', 1, 1)
+
+
 def run(ctx, R):
     _run_c20(ctx, R)
     r205(ctx, R)
     r206(ctx, R)
+    r207(ctx, R)
